@@ -53,13 +53,13 @@ func yamlStr(s string) string {
 	return string(b)
 }
 
-func writeConfig(path, addr, logsJSONPrefix string, logs []LogCfg, wits []WitCfg) error {
+func writeConfig(path, addr, logsJSONPrefix, token string, logs []LogCfg, wits []WitCfg) error {
 	var b strings.Builder
 	fmt.Fprintf(&b, "listen:\n  - %s\n", yamlStr(addr))
 	if logsJSONPrefix != "" {
 		fmt.Fprintf(&b, "logsjsonprefix: %s\n", yamlStr(logsJSONPrefix))
 	}
-	fmt.Fprintf(&b, "operatorname: %s\n", yamlStr("verif"))
+	fmt.Fprintf(&b, "operatorname: %s\n", yamlStr(token))
 	if len(wits) > 0 {
 		b.WriteString("witnesses:\n")
 		for _, w := range wits {
@@ -89,7 +89,14 @@ func StartSkylight(bin, scratch string, logsJSONPrefix string, logs []LogCfg, wi
 			return nil, err
 		}
 		cfg := filepath.Join(scratch, fmt.Sprintf("skylight-%d.yaml", attempt))
-		if err := writeConfig(cfg, addr, logsJSONPrefix, logs, wits); err != nil {
+		// the operator name served at /logs.json identifies this very process:
+		// on a busy machine the port may have gone to someone else meanwhile
+		token := fmt.Sprintf("verif-%d-%d-%d", os.Getpid(), attempt, time.Now().UnixNano())
+		idHost := "up.invalid"
+		if logsJSONPrefix != "" {
+			idHost = strings.TrimSuffix(strings.TrimPrefix(logsJSONPrefix, "https://"), "/")
+		}
+		if err := writeConfig(cfg, addr, logsJSONPrefix, token, logs, wits); err != nil {
 			return nil, err
 		}
 		errPath := filepath.Join(scratch, fmt.Sprintf("skylight-%d.stderr", attempt))
@@ -110,9 +117,9 @@ func StartSkylight(bin, scratch string, logsJSONPrefix string, logs []LogCfg, wi
 		up := false
 		for deadline := time.Now().Add(20 * time.Second); time.Now().Before(deadline) && s.Alive(); time.Sleep(20 * time.Millisecond) {
 			c := NewRawClient(addr)
-			_, err := c.Do("GET", "up.invalid", "/health")
+			r, err := c.Do("GET", idHost, "/logs.json")
 			c.Close()
-			if err == nil {
+			if err == nil && r.Status == 200 && bytes.Contains(r.Body, []byte(token)) {
 				up = true
 				break
 			}
